@@ -182,11 +182,27 @@ Proof. vm_compute. repeat split; reflexivity. Qed.
      query when the verdict code is 0; for q <= 0 / q >= 1 the least / greatest value that carries
      a non-zero weight (NaN if there is none); IQR returned v with |v - (a - b)| <= tol_iqr_w xs for
      a, b such values at q = 3/4 and 1/4 (targets in their windows). *)
+(* In addition, EXACTLY (no tolerance, on the observed floats; [order_facts]): every finite result lies
+   between two values of the sample, and the results of one case are non-decreasing in q.  The comparator
+   also checks, without tolerance, that an interpolated unweighted result lies in the bracket of its two
+   order statistics (widened by one statistic when the position is within 1e-6 of an integer); that
+   bracket test is not part of the theorem (see meta/C10.json, partial). *)
 Theorem C10_check_ok_sound : forall line c tag pos diag hist cases,
   check_C10 line = verdict c tag pos diag -> (c = 0 \/ c = 1)%Z ->
   p_line line = Some ((hist, cases), []) -> Forall (case_ok c) cases.
 Proof. exact check_ok_sound. Qed.
 Print Assumptions C10_check_ok_sound.
+
+(* the exact order facts are part of case_ok; for a constant sample the only admissible result is the constant *)
+Theorem C10_check_order_facts : forall code sorted hasw xs ws qs ist iv unm,
+  case_ok code (sorted, hasw, xs, ws, qs, ist, iv, unm) -> order_facts xs qs.
+Proof. exact case_ok_order. Qed.
+Print Assumptions C10_check_order_facts.
+
+Theorem C10_check_constant_sample : forall xs qs c, order_facts xs qs -> xs <> [] -> Forall (fun x => x == c) xs ->
+  forall q st v, In (q, st, XFin v) qs -> v == c.
+Proof. exact order_facts_constant. Qed.
+Print Assumptions C10_check_constant_sample.
 
 (* the same for one step: check_case is what check_C10 runs on every step *)
 Theorem C10_check_case_sound : forall c v t p d,
